@@ -270,5 +270,5 @@ def user_site_floor(ctx, prog, cfg):
     ctx.extra.setdefault("user_site_kinds", {})[cfg] = kinds
     ctx.floor("OCC", "direct clone sites", kinds["clone"], 4, cfg)
     ctx.floor("OCC", "FnMut::call_mut sites", kinds["call_mut"], 1, cfg)
-    ctx.floor("OCC", "for_each sites", kinds["for_each"], 3, cfg)
+    ctx.floor("OCC", "for_each sites", kinds["for_each"], 2, cfg)
     ctx.floor("OCC", "element comparison sites", kinds["eq"], 10, cfg)
